@@ -294,7 +294,7 @@ func (e *Engine) selectOp(fr *frame, st *State, regs map[ssa.Value]Value, x *ssa
 		}
 	}
 	if x.Blocking {
-		e.fail(st, c.Not(taken), "noblock:select-would-block-forever", where)
+		e.blockUntil(st, taken, "select-would-block-forever", where)
 	}
 	return mk(idx, okT, rv)
 }
